@@ -55,7 +55,7 @@ def concretize(st, rot, rng):
     """returns (bytes, expected) for a model state of DlisEflr"""
     nt = len(st['tmpl'])
     t_conc = []
-    out = GL.set_component(b'VERIF-SET', rng.choice([None, b'SETNAME', b'']))
+    out = GL.set_component(b'VERIF-SET', rng.choice([None, b'SETNAME', b'']), role=rng.choice(['SET', 'SET', 'RDSET', 'RSET']))
     for c, ta in enumerate(st['tmpl']):
         has = set(ta['has'])
         count = rng.choice([1, 2, 3, 0]) if 'C' in has else None
